@@ -170,6 +170,10 @@ def generate(rng, tier):
         # make sure translucent flat colours occur so that Src and Over differ
         t3 = t3[:6] + ["CS", "0", "CR", "0", "0", "#" + rng.choice(["80000080", "40404040", "00008080", G.rpremul(rng)])] + t3[6:]
         g["drawop"].append("PIXOP %s %d %d %s" % (kind, rng.choice(sizes[2:8]), rng.choice(sizes[2:8]), " ".join(t3)))
+        if rng.below(3) == 0:
+            ab = ["R", "c2000000", "c2000000", "42000000", "42000000", "-", "SP", "0", C.fh(float(rng.range(-20, 20))), C.fh(float(rng.range(-20, 20))),
+                  "L", C.fh(float(rng.range(-20, 20))), C.fh(float(rng.range(-20, 20)))]
+            g.setdefault("drawop-after-abandoned-path", []).append("PIXOP %s %d %d %s" % (kind, rng.choice(sizes[2:8]), rng.choice(sizes[2:8]), " ".join(ab + t3)))
         # far larger scale exponents (no float32 overflow / underflow yet): quantities of higher degree in the coordinates
         # (products of radii and offsets in the arc code) move by 2^(4k)
         k7 = rng.choice([-14, -12, -10, -9, -8, 8, 10, 12])
